@@ -238,7 +238,7 @@ func GetAttrString(self Object, key string) (res Object, err error) {
 	// classes in its MRO (not only its own) and bind what is found with
 	// __get__(None, cls) so classmethods and staticmethods work
 	if cls, ok := self.(*Type); ok {
-		if res = cls.Lookup(key); res != nil {
+		if res = cls.NativeGetAttrOrNil(key); res != nil {
 			if _, isProperty := res.(*Property); !isProperty {
 				if I, ok := res.(I__get__); ok {
 					return I.M__get__(None, cls)
